@@ -37,6 +37,12 @@ Ltac bind_step H :=
   | (let '(_, _) := ?p in _) = _ => destruct p
   end.
 
+Ltac bs H a Ha :=
+  match type of H with
+  | bind _ _ = Err _ => apply bind_err in H; destruct H as [H | [a [Ha H]]]
+  | bind _ _ = Ok _ => apply bind_ok in H; destruct H as [a [Ha H]]
+  end.
+
 (* ------------------------------------------------------------------ *)
 (* a. DSL constructors: binding errors are TypeErrors                  *)
 
@@ -725,3 +731,815 @@ Section SpecFacts.
       - intros s e' Hs. apply IH; lia.
     Qed.
   End CondFacts.
+
+  (* ---------------------------------------------------------------- *)
+  (* parts and paths                                                    *)
+
+  Hypothesis HKey : has_ctor T "Key" "equal_to" = true.
+  Hypothesis HIndex : has_ctor T "Index" "equal_to" = true.
+  Hypothesis HValue : has_ctor T "Value" "equal_to" = true.
+  Hypothesis HSuf : forallb mod_okb (sx_allowed_suffixes X) = true.
+
+  Notation wf0 := (wfres pyval id0).
+
+  Lemma dict_pop_depth k : forall d x d',
+    dict_pop k d = (x, d') -> ddepth d' <= ddepth d /\ (forall v, x = Some v -> vdepth v <= ddepth d).
+  Proof.
+    induction d as [|[k2 v] r IH]; intros x d' H; cbn [dict_pop] in H.
+    - injection H as <- <-. split; [lia|discriminate].
+    - rewrite ddepth_cons. destruct (py_eq (VStr k) k2).
+      + injection H as <- <-. split; [lia|]. intros v' Hv. injection Hv as <-. lia.
+      + destruct (dict_pop k r) as [x0 r'] eqn:E. injection H as <- <-.
+        destruct (IH _ _ eq_refl) as [H1 H2]. rewrite ddepth_cons. split; [lia|].
+        intros v' Hv. specialize (H2 _ Hv). lia.
+  Qed.
+
+  Lemma split_short_ok pre : forall d s o,
+    split_short pre d = Ok (s, o) -> ddepth s <= ddepth d /\ ddepth o <= ddepth d.
+  Proof.
+    induction d as [|[k v] r IH]; intros s o H; cbn [split_short] in H.
+    - injection H as <- <-. split; lia.
+    - rewrite ddepth_cons.
+      destruct k as [| | | |sk| | | | |]; bind_step H; destruct a as [ss oo]; destruct (IH _ _ Ha) as [H1 H2];
+        try (injection H as <- <-; rewrite ddepth_cons; split; lia).
+      destruct (String.prefix pre sk); injection H as <- <-; rewrite ddepth_cons; split; lia.
+  Qed.
+
+  Lemma split_short_err pre : forall d e, split_short pre d = Err e -> False.
+  Proof.
+    induction d as [|[k v] r IH]; intros e H; cbn [split_short] in H; [discriminate|].
+    destruct k as [| | | |sk| | | | |]; (bind_step H; [eauto|]); destruct a as [ss oo]; try discriminate.
+    destruct (String.prefix pre sk); discriminate.
+  Qed.
+
+  Section PartFacts.
+    Variable cond0 : pyval -> res (dslc pyval * cond pyval).
+    Variable P : exc -> Prop.
+    Hypothesis P_type : P TypeError.
+    Hypothesis P_value : P ValueError.
+    Hypothesis P_path : P MalformedPath.
+    Hypothesis Hwf : forall s p, cond0 s = Ok p -> wf0 p.
+
+    Lemma wf0_null : wf0 (DNull, CNull).
+    Proof. reflexivity. Qed.
+
+    Lemma and_on_err acc sub e : and_on acc sub = Err e -> e = TypeError.
+    Proof. unfold and_on. intros H. bind_step H; [eapply mk_bin_err; exact H|discriminate]. Qed.
+
+    Lemma and_on_wf acc sub r : wf0 acc -> wf0 sub -> and_on acc sub = Ok r -> wf0 r.
+    Proof.
+      unfold and_on, wfres. intros Ha Hs H. bind_step H. injection H as <-. cbn [fst snd build].
+      rewrite Ha, Hs. exact Ha0.
+    Qed.
+
+    Lemma pop_cond_ok k d c d' : pop_cond cond0 k d = Ok (c, d') -> wf0 c /\ ddepth d' <= ddepth d.
+    Proof.
+      unfold pop_cond. destruct (dict_pop k d) as [x d1] eqn:E. apply dict_pop_depth in E as [E1 _].
+      intros H. destruct x as [v|]; [destruct v|]; try (injection H as <- <-; split; [reflexivity|exact E1]).
+      all: bind_step H; injection H as <- <-; split; [eapply Hwf; exact Ha|exact E1].
+    Qed.
+
+    Lemma pop_kind_ok k kind acc d c d' :
+      wf0 acc -> pop_kind cond0 k kind acc d = Ok (c, d') -> wf0 c /\ ddepth d' <= ddepth d.
+    Proof.
+      unfold pop_kind. intros Hacc. destruct (dict_pop k d) as [x d1] eqn:E. apply dict_pop_depth in E as [E1 _].
+      intros H. destruct x as [v|]; [destruct v|]; try (injection H as <- <-; split; [exact Hacc|exact E1]).
+      all: bind_step H; destruct (is_like_strict kind (snd a)); [|discriminate];
+        bind_step H; injection H as <- <-; split; [|exact E1];
+        eapply and_on_wf; [exact Hacc| |exact Ha0]; eapply Hwf; exact Ha.
+    Qed.
+
+    Lemma fold_short_wf : forall shorts acc r, wf0 acc -> fold_short cond0 shorts acc = Ok r -> wf0 r.
+    Proof.
+      induction shorts as [|[k v] s IH]; intros acc r Hacc H; cbn [fold_short] in H.
+      - injection H as <-. exact Hacc.
+      - bind_step H. bind_step H. eapply IH; [|exact H].
+        eapply and_on_wf; [exact Hacc| |exact Ha0]. eapply Hwf; exact Ha.
+    Qed.
+
+    Lemma shorthands_ok pre acc d c d' :
+      wf0 acc -> shorthands cond0 pre acc d = Ok (c, d') -> wf0 c /\ ddepth d' <= ddepth d.
+    Proof.
+      unfold shorthands. intros Hacc H. bind_step H. destruct a as [s o].
+      apply split_short_ok in Ha as [_ Ho]. bind_step H. injection H as <- <-.
+      split; [eapply fold_short_wf; eauto|exact Ho].
+    Qed.
+
+    Section Bounded.
+      Variable m : nat.
+      Hypothesis Hc : forall s e, vdepth s <= m -> cond0 s = Err e -> P e.
+
+      Lemma pop_cond_err k d e : ddepth d < m -> pop_cond cond0 k d = Err e -> P e.
+      Proof.
+        unfold pop_cond. intros Hd. destruct (dict_pop k d) as [x d1] eqn:E. apply dict_pop_depth in E as [_ E2].
+        intros H. destruct x as [v|]; [|discriminate]. specialize (E2 _ eq_refl).
+        destruct v; try discriminate.
+        all: bind_step H; [|discriminate]; eapply Hc; [|exact H]; lia.
+      Qed.
+
+      Lemma pop_kind_err k kind acc d e : ddepth d < m -> pop_kind cond0 k kind acc d = Err e -> P e.
+      Proof.
+        unfold pop_kind. intros Hd. destruct (dict_pop k d) as [x d1] eqn:E. apply dict_pop_depth in E as [_ E2].
+        intros H. destruct x as [v|]; [|discriminate]. specialize (E2 _ eq_refl).
+        destruct v; try discriminate.
+        all: (bind_step H; [eapply Hc; [|exact H]; lia|]);
+          destruct (is_like_strict kind (snd a)); [|injection H as <-; exact P_value];
+          (bind_step H; [|discriminate]); apply and_on_err in H; subst; exact P_type.
+      Qed.
+
+      Lemma fold_short_err : forall shorts acc e,
+        ddepth shorts < m -> fold_short cond0 shorts acc = Err e -> P e.
+      Proof.
+        induction shorts as [|[k v] s IH]; intros acc e Hd H; cbn [fold_short] in H; [discriminate|].
+        rewrite ddepth_cons in Hd.
+        bind_step H.
+        { eapply Hc; [|exact H]. change (vdepth (VDict [(k, v)])) with (S (Nat.max (Nat.max (vdepth k) (vdepth v)) 0)). lia. }
+        bind_step H; [apply and_on_err in H; subst; exact P_type|].
+        eapply IH; [|exact H]. lia.
+      Qed.
+
+      Lemma shorthands_err pre acc d e : ddepth d < m -> shorthands cond0 pre acc d = Err e -> P e.
+      Proof.
+        unfold shorthands. intros Hd H. bind_step H; [exfalso; eapply split_short_err; exact H|].
+        destruct a as [s o]. apply split_short_ok in Ha as [Hs _].
+        bind_step H; [|discriminate]. eapply fold_short_err; [|exact H]. lia.
+      Qed.
+
+      Lemma to_carg_ok c : wf0 c -> carg_ok T pyval id0 (to_carg c).
+      Proof. intros H. cbn. eexists. exact H. Qed.
+
+      Lemma part_from_spec_err d0 e : ddepth d0 < m -> part_from_spec T X cond0 d0 = Err e -> P e.
+      Proof.
+        intros Hd H. unfold part_from_spec in H.
+        destruct (dict_pop "type" d0) as [ty d1] eqn:E1. apply dict_pop_depth in E1 as [E1 _].
+        bs H cls Hcls.
+        { destruct ty as [v|]; [destruct v|];
+            repeat match type of H with context [match ?x with _ => _ end] => destruct x end;
+            try discriminate; injection H as <-; exact P_type. }
+        clear Hcls.
+        bs H r Hr; [eapply pop_cond_err; [|exact H]; lia|]. destruct r as [cnd d2]. apply pop_cond_ok in Hr as [W1 D2].
+        bs H r Hr; [eapply pop_cond_err; [|exact H]; lia|]. destruct r as [lcnd d3]. apply pop_cond_ok in Hr as [W2 D3].
+        bs H r Hr; [eapply pop_cond_err; [|exact H]; lia|]. destruct r as [mcnd d4]. apply pop_cond_ok in Hr as [W3 D4].
+        bs H r Hr; [eapply pop_kind_err; [|exact H]; lia|]. destruct r as [cnd1 d5].
+        apply pop_kind_ok in Hr as [W4 D5]; [|exact W1].
+        bs H r Hr; [eapply shorthands_err; [|exact H]; lia|]. destruct r as [cnd2 d6].
+        apply shorthands_ok in Hr as [W5 D6]; [|exact W4].
+        destruct (String.eqb cls "MapValue"); [|destruct (String.eqb cls "ListValue")].
+        - bs H r Hr; [eapply shorthands_err; [|exact H]; lia|]. destruct r as [c3 d7].
+          apply shorthands_ok in Hr as [W6 D7]; [|exact W5].
+          bs H r Hr; [eapply pop_kind_err; [|exact H]; lia|]. destruct r as [c4 d8].
+          apply pop_kind_ok in Hr as [W7 D8]; [|exact W6].
+          destruct (dict_pop "label" d8) as [label d9]. destruct d9; [|injection H as <-; exact P_value].
+          bs H r Hr; [|discriminate].
+          eapply mk_part_err in H; eauto; [subst; exact P_type|].
+          cbn [pterm_ok]. repeat split; try exact I. apply to_carg_ok. exact W7.
+        - bs H r Hr; [eapply shorthands_err; [|exact H]; lia|]. destruct r as [c3 d7].
+          apply shorthands_ok in Hr as [W6 D7]; [|exact W5].
+          bs H r Hr; [eapply pop_kind_err; [|exact H]; lia|]. destruct r as [c4 d8].
+          apply pop_kind_ok in Hr as [W7 D8]; [|exact W6].
+          destruct (dict_pop "label" d8) as [label d9]. destruct d9; [|injection H as <-; exact P_value].
+          bs H r Hr; [|discriminate].
+          eapply mk_part_err in H; eauto; [subst; exact P_type|].
+          cbn [pterm_ok]. repeat split; try exact I. apply to_carg_ok. exact W7.
+        - bs H r Hr; [eapply shorthands_err; [|exact H]; lia|]. destruct r as [l1 d7].
+          apply shorthands_ok in Hr as [W6 D7]; [|exact W2].
+          bs H r Hr; [eapply shorthands_err; [|exact H]; lia|]. destruct r as [m1 d8].
+          apply shorthands_ok in Hr as [W7 D8]; [|exact W3].
+          bs H r Hr; [eapply pop_kind_err; [|exact H]; lia|]. destruct r as [l2 d9].
+          apply pop_kind_ok in Hr as [W8 D9]; [|exact W6].
+          bs H r Hr; [eapply pop_kind_err; [|exact H]; lia|]. destruct r as [m2 d10].
+          apply pop_kind_ok in Hr as [W9 D10]; [|exact W7].
+          destruct (dict_pop "label" d10) as [label d11]. destruct d11; [|injection H as <-; exact P_value].
+          cbv zeta in H. bs H r Hr; [|discriminate].
+          eapply mk_part_err in H; eauto; [subst; exact P_type|].
+          cbn [pterm_ok]. repeat split; try exact I; apply to_carg_ok; assumption.
+      Qed.
+
+      Lemma part_from_spec_ok d0 t : part_from_spec T X cond0 d0 = Ok t -> pterm_ok T pyval id0 t.
+      Proof.
+        intros H. unfold part_from_spec in H.
+        destruct (dict_pop "type" d0) as [ty d1].
+        bs H cls Hcls. clear Hcls.
+        bs H r Hr. destruct r as [cnd d2]. apply pop_cond_ok in Hr as [W1 _].
+        bs H r Hr. destruct r as [lcnd d3]. apply pop_cond_ok in Hr as [W2 _].
+        bs H r Hr. destruct r as [mcnd d4]. apply pop_cond_ok in Hr as [W3 _].
+        bs H r Hr. destruct r as [cnd1 d5]. apply pop_kind_ok in Hr as [W4 _]; [|exact W1].
+        bs H r Hr. destruct r as [cnd2 d6]. apply shorthands_ok in Hr as [W5 _]; [|exact W4].
+        destruct (String.eqb cls "MapValue"); [|destruct (String.eqb cls "ListValue")].
+        - bs H r Hr. destruct r as [c3 d7]. apply shorthands_ok in Hr as [W6 _]; [|exact W5].
+          bs H r Hr. destruct r as [c4 d8]. apply pop_kind_ok in Hr as [W7 _]; [|exact W6].
+          destruct (dict_pop "label" d8) as [label d9]. destruct d9; [|discriminate].
+          bs H r Hr. injection H as <-.
+          cbn [pterm_ok]. repeat split; try exact I. apply to_carg_ok. exact W7.
+        - bs H r Hr. destruct r as [c3 d7]. apply shorthands_ok in Hr as [W6 _]; [|exact W5].
+          bs H r Hr. destruct r as [c4 d8]. apply pop_kind_ok in Hr as [W7 _]; [|exact W6].
+          destruct (dict_pop "label" d8) as [label d9]. destruct d9; [|discriminate].
+          bs H r Hr. injection H as <-.
+          cbn [pterm_ok]. repeat split; try exact I. apply to_carg_ok. exact W7.
+        - bs H r Hr. destruct r as [l1 d7]. apply shorthands_ok in Hr as [W6 _]; [|exact W2].
+          bs H r Hr. destruct r as [m1 d8]. apply shorthands_ok in Hr as [W7 _]; [|exact W3].
+          bs H r Hr. destruct r as [l2 d9]. apply pop_kind_ok in Hr as [W8 _]; [|exact W6].
+          bs H r Hr. destruct r as [m2 d10]. apply pop_kind_ok in Hr as [W9 _]; [|exact W7].
+          destruct (dict_pop "label" d10) as [label d11]. destruct d11; [|discriminate].
+          cbv zeta in H. bs H r Hr. injection H as <-.
+          cbn [pterm_ok]. repeat split; try exact I; apply to_carg_ok; assumption.
+      Qed.
+
+      Lemma parts_from_specs_ok : forall l ps,
+        parts_from_specs T X cond0 l = Ok ps -> Forall (pterm_ok T pyval id0) ps.
+      Proof.
+        induction l as [|v r IH]; intros ps H; cbn [parts_from_specs] in H.
+        - injection H as <-. constructor.
+        - destruct v; try (bs H ps' Hps; injection H as <-; constructor; [exact I|eauto]).
+          bs H p0 Hp0. bs H ps' Hps. injection H as <-. constructor; [eapply part_from_spec_ok; eauto|eauto].
+      Qed.
+
+      Lemma parts_from_specs_err : forall l e,
+        ldepth l <= m -> parts_from_specs T X cond0 l = Err e -> P e.
+      Proof.
+        induction l as [|v r IH]; intros e Hd H; cbn [parts_from_specs] in H; [discriminate|].
+        rewrite ldepth_cons in Hd.
+        destruct v; try (bs H ps' Hps; [eapply IH; [|exact H]; lia|discriminate]).
+        rewrite vdepth_dict in Hd.
+        bs H p0 Hp0; [eapply part_from_spec_err; [|exact H]; lia|].
+        bs H ps' Hps; [eapply IH; [|exact H]; lia|discriminate].
+      Qed.
+
+      Lemma path_from_part_specs_err l e :
+        ldepth l <= m -> path_from_part_specs T X cond0 l = Err e -> P e.
+      Proof.
+        intros Hd H. unfold path_from_part_specs in H.
+        bs H ps Hps; [eapply parts_from_specs_err; eauto|].
+        cbv zeta in H. bs H r Hr; [|discriminate].
+        apply parts_from_specs_ok in Hps.
+        eapply mk_path_err in H; eauto; [destruct H as [->| ->]; assumption].
+      Qed.
+    End Bounded.
+
+    Lemma path_from_part_specs_ok l t :
+      path_from_part_specs T X cond0 l = Ok t -> Forall (pterm_ok T pyval id0) (pt_parts t).
+    Proof.
+      intros H. unfold path_from_part_specs in H.
+      bs H ps Hps. cbv zeta in H. bs H r Hr. injection H as <-. cbn [pt_parts].
+      eapply parts_from_specs_ok; exact Hps.
+    Qed.
+
+    Lemma unescape_keys_err : forall d keep moved found e, unescape_keys d keep moved found = Err e -> False.
+    Proof.
+      induction d as [|[k v] r IH]; intros keep moved found e H; cbn [unescape_keys] in H; [discriminate|].
+      destruct k as [| | | |sk| | | | |]; eauto.
+      destruct (str_contains esc_code sk); eauto.
+    Qed.
+
+    Lemma py_iter_depth v l : py_iter v = Ok l -> ldepth l <= vdepth v.
+    Proof.
+      destruct v; cbn [py_iter]; intros H; try discriminate; injection H as <-.
+      - unfold ldepth. induction (str_chars s) as [|c r IH]; cbn; [lia|exact IH].
+      - rewrite vdepth_list. lia.
+      - rewrite vdepth_tuple. lia.
+      - rewrite vdepth_dict. induction d as [|[k x] d IH]; [cbn; lia|].
+        cbn [map fst]. rewrite ldepth_cons, ddepth_cons. lia.
+    Qed.
+
+    Lemma mod_loop_err (t : pathterm pyval) :
+      Forall (pterm_ok T pyval id0) (pt_parts t) ->
+      forall ms done e, forallb mod_okb done = true ->
+      (fix go (ms done : list string) : res (pathterm pyval + pyval) :=
+         match ms with
+         | [] => Ok (inl {| pt_parts := pt_parts t; pt_mods := done; pt_src := None |})
+         | m :: r =>
+             if negb (existsb (String.eqb m) (sx_allowed_suffixes X)) then Err MalformedPath
+             else
+               let t' := {| pt_parts := pt_parts t; pt_mods := done ++ [m]; pt_src := None |} in
+               let* _ := mk_path T id0 t' in go r (done ++ [m])
+         end) ms done = Err e -> P e.
+    Proof.
+      intros Hparts. induction ms as [|m0 r IH]; intros done e Hdone H; [discriminate|].
+      destruct (existsb (String.eqb m0) (sx_allowed_suffixes X)) eqn:Em; cbn [negb] in H;
+        [|injection H as <-; exact P_path].
+      assert (Hd' : forallb mod_okb (done ++ [m0]) = true).
+      { rewrite forallb_app, Hdone. cbn. rewrite andb_true_r.
+        apply existsb_eqb_in in Em. rewrite forallb_forall in HSuf. apply HSuf. exact Em. }
+      cbv zeta in H. bs H r0 Hr0.
+      - eapply mk_path_err in H; eauto; [destruct H as [->| ->]; assumption].
+      - eapply IH; [|exact H]. exact Hd'.
+    Qed.
+
+    Lemma path_from_spec0_err spec e :
+      (forall s e, vdepth s < vdepth spec -> cond0 s = Err e -> P e) ->
+      path_from_spec0 T X cond0 spec = Err e -> P e.
+    Proof.
+      intros Hc H. unfold path_from_spec0 in H.
+      destruct spec; try (injection H as <-; exact P_path).
+      destruct d as [|[k0 v0] rest]; [injection H as <-; exact P_path|].
+      cbv zeta in H. bs H r Hr; [exfalso; eapply unescape_keys_err; exact H|].
+      destruct r as [d' escaped]. destruct escaped; [discriminate|].
+      destruct rest; [|injection H as <-; exact P_path].
+      destruct k0; try (injection H as <-; exact P_path).
+      match type of H with (if ?c then _ else _) = _ => destruct c end; [injection H as <-; exact P_path|].
+      bs H parts Hparts; [apply py_iter_err in H; subst; exact P_type|].
+      apply py_iter_depth in Hparts.
+      change (vdepth (VDict [(VStr s, v0)])) with (S (Nat.max (Nat.max 0 (vdepth v0)) 0)) in Hc.
+      bs H t Ht.
+      - refine (path_from_part_specs_err (ldepth parts) _ parts e _ H); [|lia].
+        intros s0 e0 Hs0. apply Hc. lia.
+      - apply path_from_part_specs_ok in Ht. eapply mod_loop_err; [exact Ht| |exact H]. reflexivity.
+    Qed.
+  End PartFacts.
+
+  (* ---------------------------------------------------------------- *)
+  (* tying the knot                                                     *)
+
+  Definition serr (e : exc) : Prop := spec_error e \/ e = RecursionError.
+
+  Lemma se_type : spec_error TypeError. Proof. unfold spec_error; auto. Qed.
+  Lemma se_value : spec_error ValueError. Proof. unfold spec_error; auto. Qed.
+  Lemma se_cond : spec_error MalformedCond. Proof. unfold spec_error; auto. Qed.
+  Lemma se_path : spec_error MalformedPath. Proof. unfold spec_error; auto. Qed.
+  Lemma se_rule : spec_error MalformedRule. Proof. unfold spec_error; auto. Qed.
+
+  Lemma cond0_from_spec_wf : forall f s p, cond0_from_spec T X f s = Ok p -> wf0 p.
+  Proof.
+    induction f as [|f IH]; intros s p H; cbn [cond0_from_spec] in H; [discriminate|].
+    eapply step_wf; [|exact H]. exact IH.
+  Qed.
+
+  Lemma cond0_from_spec_err_all : forall f s e, cond0_from_spec T X f s = Err e -> serr e.
+  Proof.
+    induction f as [|f IH]; intros s e H; cbn [cond0_from_spec] in H.
+    - injection H as <-. right. reflexivity.
+    - eapply (step_err pyval id0 inert0 inert0 _ serr) in H; [exact H| left; exact se_type | left; exact se_cond | |].
+      + intros u e' _ Hu.
+        eapply (path_from_spec0_err _ serr) in Hu;
+          [exact Hu | left; exact se_type | left; exact se_value | left; exact se_path | apply cond0_from_spec_wf |].
+        intros s0 e0 _. apply IH.
+      + intros s0 e0 _. apply IH.
+  Qed.
+
+  Lemma cond0_from_spec_err_depth : forall f s e,
+    vdepth s < f -> cond0_from_spec T X f s = Err e -> spec_error e.
+  Proof.
+    induction f as [|f IH]; intros s e Hf H; cbn [cond0_from_spec] in H; [lia|].
+    eapply (step_err pyval id0 inert0 inert0 _ spec_error) in H; [exact H| exact se_type | exact se_cond | |].
+    - intros u e' Hd Hu.
+      eapply (path_from_spec0_err _ spec_error) in Hu;
+        [exact Hu | exact se_type | exact se_value | exact se_path | apply cond0_from_spec_wf |].
+      intros s0 e0 Hs0. apply IH. lia.
+    - intros s0 e0 Hs0. apply IH. lia.
+  Qed.
+
+  (* --- DataPath.from_spec --- *)
+  Lemma path_from_spec_err_all spec e : path_from_spec T X spec = Err e -> serr e.
+  Proof.
+    unfold path_from_spec. intros H.
+    eapply (path_from_spec0_err _ serr) in H;
+      [exact H | left; exact se_type | left; exact se_value | left; exact se_path | apply cond0_from_spec_wf |].
+    intros s0 e0 _. apply cond0_from_spec_err_all.
+  Qed.
+
+  Lemma path_from_spec_err_depth spec e :
+    vdepth spec <= spec_fuel -> path_from_spec T X spec = Err e -> spec_error e.
+  Proof.
+    unfold path_from_spec. intros Hd H.
+    eapply (path_from_spec0_err _ spec_error) in H;
+      [exact H | exact se_type | exact se_value | exact se_path | apply cond0_from_spec_wf |].
+    intros s0 e0 Hs0. apply cond0_from_spec_err_depth. lia.
+  Qed.
+
+  (* --- ContainerValue.from_spec --- *)
+  Lemma part_spec_parse_err_all d e : part_spec_parse T X d = Err e -> serr e.
+  Proof.
+    unfold part_spec_parse. intros H.
+    eapply (part_from_spec_err _ serr) with (m := S (ddepth d)) in H;
+      [exact H | left; exact se_type | left; exact se_value | apply cond0_from_spec_wf | | lia].
+    intros s0 e0 _. apply cond0_from_spec_err_all.
+  Qed.
+
+  Lemma part_spec_parse_err_depth d e :
+    vdepth (VDict d) < spec_fuel -> part_spec_parse T X d = Err e -> spec_error e.
+  Proof.
+    unfold part_spec_parse. rewrite vdepth_dict. intros Hd H.
+    eapply (part_from_spec_err _ spec_error) with (m := S (ddepth d)) in H;
+      [exact H | exact se_type | exact se_value | apply cond0_from_spec_wf | | lia].
+    intros s0 e0 Hs0. apply cond0_from_spec_err_depth. lia.
+  Qed.
+
+  (* --- DataPath.from_part_specs --- *)
+  Lemma from_part_specs_err_all l e : from_part_specs T X l = Err e -> serr e.
+  Proof.
+    unfold from_part_specs. intros H.
+    eapply (path_from_part_specs_err _ serr) with (m := ldepth l) in H;
+      [exact H | left; exact se_type | left; exact se_value | apply cond0_from_spec_wf | | lia].
+    intros s0 e0 _. apply cond0_from_spec_err_all.
+  Qed.
+
+  Lemma from_part_specs_err_depth l e :
+    ldepth l < spec_fuel -> from_part_specs T X l = Err e -> spec_error e.
+  Proof.
+    unfold from_part_specs. intros Hd H.
+    eapply (path_from_part_specs_err _ spec_error) with (m := ldepth l) in H;
+      [exact H | exact se_type | exact se_value | apply cond0_from_spec_wf | | lia].
+    intros s0 e0 Hs0. apply cond0_from_spec_err_depth. lia.
+  Qed.
+
+  (* --- ConditionLike.from_spec --- *)
+  Lemma cond1_from_spec_err_all spec e : cond1_from_spec T X spec = Err e -> serr e.
+  Proof.
+    unfold cond1_from_spec. intros H.
+    eapply (cond_from_spec_err_all arg1 ALit (APath 0%N) inert0 _ serr) in H;
+      [exact H | left; exact se_type | left; exact se_cond | right; reflexivity |].
+    intros u e'. apply path_from_spec_err_all.
+  Qed.
+
+  Lemma cond1_from_spec_err_depth spec e :
+    vdepth spec < spec_fuel -> cond1_from_spec T X spec = Err e -> spec_error e.
+  Proof.
+    unfold cond1_from_spec. intros Hd H.
+    eapply (cond_from_spec_err_depth arg1 ALit (APath 0%N) inert0 _ spec_error se_type se_cond spec_fuel) in H;
+      [exact H | | exact Hd | lia].
+    intros u e' Hu. apply path_from_spec_err_depth. lia.
+  Qed.
+
+  (* --- dict(spec) in front of ContainerValue.from_spec (the harness entry point) --- *)
+  Lemma pair_of_err v e : pair_of v = Err e -> e = TypeError \/ e = ValueError.
+  Proof.
+    unfold pair_of. intros H.
+    destruct v; repeat match type of H with context [match ?x with _ => _ end] => destruct x end;
+      try discriminate; injection H as <-; auto.
+  Qed.
+
+  Lemma pair_of_depth v k x : pair_of v = Ok (k, x) -> Nat.max (vdepth k) (vdepth x) <= vdepth v.
+  Proof.
+    unfold pair_of. intros H.
+    destruct v; repeat match type of H with context [match ?x with _ => _ end] => destruct x end;
+      try discriminate; injection H as <- <-;
+      rewrite ?vdepth_list, ?vdepth_tuple, ?vdepth_dict, ?ldepth_cons, ?ddepth_cons; cbn [vdepth]; lia.
+  Qed.
+
+  Lemma dict_put_depth k v : forall d, ddepth (dict_put k v d) <= Nat.max (Nat.max (vdepth k) (vdepth v)) (ddepth d).
+  Proof.
+    induction d as [|[k2 v2] r IH]; cbn [dict_put].
+    - rewrite ddepth_cons. lia.
+    - destruct (py_eq k k2); rewrite !ddepth_cons; lia.
+  Qed.
+
+  Lemma fold_put_depth n : forall ps d,
+    (forall k x, In (k, x) ps -> Nat.max (vdepth k) (vdepth x) <= n) -> ddepth d <= n ->
+    ddepth (fold_left (fun d kv => dict_put (fst kv) (snd kv) d) ps d) <= n.
+  Proof.
+    induction ps as [|[k x] ps IH]; intros d Hps Hd; cbn [fold_left]; [exact Hd|].
+    apply IH; [intros k' x' Hin; apply Hps; right; exact Hin|].
+    cbn [fst snd]. pose proof (dict_put_depth k x d). specialize (Hps k x (or_introl eq_refl)). lia.
+  Qed.
+
+  Lemma mapM_pair_of_depth n : forall l ps,
+    (forall v, In v l -> vdepth v <= n) -> mapM pair_of l = Ok ps ->
+    forall k x, In (k, x) ps -> Nat.max (vdepth k) (vdepth x) <= n.
+  Proof.
+    induction l as [|v l IH]; intros ps Hl H; cbn [mapM] in H.
+    - injection H as <-. intros k x [].
+    - bs H p Hp. bs H ps' Hps. injection H as <-. intros k x [Hin|Hin].
+      + subst p. apply pair_of_depth in Hp. specialize (Hl v (or_introl eq_refl)). lia.
+      + eapply IH; [|exact Hps|exact Hin]. intros v' Hv'. apply Hl. right. exact Hv'.
+  Qed.
+
+  Lemma dict_of_val_err v e : dict_of_val v = Err e -> e = TypeError \/ e = ValueError.
+  Proof.
+    unfold dict_of_val. intros H.
+    destruct v; try (injection H as <-; auto; fail); try discriminate.
+    all: bs H ps Hps; [|discriminate];
+      eapply (mapM_err (fun e => e = TypeError \/ e = ValueError)); [|exact H];
+      intros y e' _; apply pair_of_err.
+  Qed.
+
+  Lemma dict_of_val_depth v d : dict_of_val v = Ok d -> vdepth (VDict d) <= S (vdepth v).
+  Proof.
+    unfold dict_of_val. intros H. rewrite vdepth_dict. apply le_n_S.
+    destruct v; try discriminate.
+    - bs H ps Hps. injection H as <-. apply fold_put_depth; [|cbn; lia].
+      eapply mapM_pair_of_depth; [|exact Hps]. intros v Hv. apply in_map_iff in Hv as [c [<- _]]. cbn. lia.
+    - bs H ps Hps. injection H as <-. apply fold_put_depth; [|cbn; lia].
+      eapply mapM_pair_of_depth; [|exact Hps]. intros v Hv. apply ldepth_in in Hv. rewrite vdepth_list. lia.
+    - bs H ps Hps. injection H as <-. apply fold_put_depth; [|cbn; lia].
+      eapply mapM_pair_of_depth; [|exact Hps]. intros v Hv. apply ldepth_in in Hv. rewrite vdepth_tuple. lia.
+    - injection H as <-. rewrite vdepth_dict. lia.
+  Qed.
+
+  Lemma part_entry_err_all spec e :
+    (let* d := dict_of_val spec in part_spec_parse T X d) = Err e -> serr e.
+  Proof.
+    intros H. bs H d Hd.
+    - left. apply dict_of_val_err in H as [->| ->]; [exact se_type|exact se_value].
+    - apply part_spec_parse_err_all in H. exact H.
+  Qed.
+
+  Lemma part_entry_err_depth spec e :
+    S (vdepth spec) < spec_fuel ->
+    (let* d := dict_of_val spec in part_spec_parse T X d) = Err e -> spec_error e.
+  Proof.
+    intros Hs H. bs H d Hd.
+    - apply dict_of_val_err in H as [->| ->]; [exact se_type|exact se_value].
+    - apply dict_of_val_depth in Hd. eapply part_spec_parse_err_depth; [|exact H]. lia.
+  Qed.
+
+  (* ---------------------------------------------------------------- *)
+  (* d. Rule.from_spec                                                  *)
+
+  Lemma get_item_err spec k e :
+    get_item spec k = Err e ->
+    e = TypeError \/ (e = KeyError /\ exists d, spec = VDict d /\ dict_look (VStr k) d = None).
+  Proof.
+    unfold get_item. intros H. destruct spec; try (injection H as <-; auto; fail).
+    destruct (dict_look (VStr k) d) eqn:E; [discriminate|]. injection H as <-. right. eauto.
+  Qed.
+
+  Lemma dict_look_depth k : forall d v, dict_look k d = Some v -> vdepth v <= ddepth d.
+  Proof.
+    induction d as [|[k2 v2] r IH]; intros v H; cbn in H; [discriminate|]. rewrite ddepth_cons.
+    destruct (py_eq k k2); [injection H as <-; lia|]. specialize (IH _ H). lia.
+  Qed.
+
+  Lemma get_item_depth spec k v : get_item spec k = Ok v -> vdepth v < vdepth spec.
+  Proof.
+    unfold get_item. intros H. destruct spec; try discriminate.
+    destruct (dict_look (VStr k) d) eqn:E; [|discriminate]. injection H as <-.
+    apply dict_look_depth in E. rewrite vdepth_dict. lia.
+  Qed.
+
+  Definition doc_err (e : exc) : Prop := e = TypeError \/ e = MalformedRule.
+
+  Lemma strip_all_err l e : strip_all l = Err e -> doc_err e.
+  Proof.
+    unfold strip_all, doc_err. intros H. destruct l; try (injection H as <-; auto; fail).
+    all: bs H r Hr; [|discriminate];
+      eapply (mapM_err doc_err); [|exact H]; intros y e' _ Hy; destruct y; try discriminate;
+      injection Hy as <-; unfold doc_err; auto.
+  Qed.
+
+  Lemma dict_look_app_some k : forall l l' v, dict_look k l = Some v -> dict_look k (l ++ l') = Some v.
+  Proof.
+    induction l as [|[k2 v2] r IH]; intros l' v H; cbn in H; [discriminate|]. cbn.
+    destruct (py_eq k k2); [exact H|]. apply IH. exact H.
+  Qed.
+
+  Lemma dict_look_app_self k dflt : py_eq k k = true -> forall l, dict_look k (l ++ [(k, dflt)]) <> None.
+  Proof.
+    intros Hk. induction l as [|[k2 v2] r IH]; cbn.
+    - rewrite Hk. discriminate.
+    - destruct (py_eq k k2); [discriminate|exact IH].
+  Qed.
+
+  Lemma look_default k dflt items : py_eq k k = true ->
+    dict_look k (match dict_look k items with Some _ => items | None => items ++ [(k, dflt)] end) <> None.
+  Proof.
+    intros Hk. destruct (dict_look k items) eqn:E; [congruence|]. apply dict_look_app_self. exact Hk.
+  Qed.
+
+  Lemma look_default_keep k k' dflt items : dict_look k items <> None ->
+    dict_look k (match dict_look k' items with Some _ => items | None => items ++ [(k', dflt)] end) <> None.
+  Proof.
+    intros Hk. destruct (dict_look k' items); [exact Hk|].
+    destruct (dict_look k items) eqn:E; [|congruence]. erewrite dict_look_app_some; [discriminate|exact E].
+  Qed.
+
+  (* the KeyError branches of norm_doc are unreachable: both keys have just been given defaults *)
+  Lemma norm_doc_err doc e : norm_doc doc = Err e -> doc_err e.
+  Proof.
+    unfold norm_doc. intros H. destruct doc as [d|]; [|discriminate].
+    destruct (negb (py_truthy d)); [discriminate|].
+    bs H d1 Hd1.
+    { destruct d; repeat match type of H with context [match ?x with _ => _ end] => destruct x end; discriminate. }
+    clear Hd1. destruct d1; try (injection H as <-; left; reflexivity).
+    cbv zeta in H.
+    set (items1 := match dict_look (VStr "description") d0 with Some _ => d0 | None => _ end) in H.
+    set (items2 := match dict_look (VStr "examples") items1 with Some _ => items1 | None => _ end) in H.
+    assert (H1 : dict_look (VStr "description") items2 <> None).
+    { apply look_default_keep. apply look_default. reflexivity. }
+    assert (H2 : dict_look (VStr "examples") items2 <> None).
+    { apply look_default. reflexivity. }
+    bs H desc Hdesc.
+    { destruct (dict_look (VStr "description") items2); [eapply strip_all_err; exact H|congruence]. }
+    bs H exs Hexs; [|discriminate].
+    destruct (dict_look (VStr "examples") items2); [eapply strip_all_err; exact H|congruence].
+  Qed.
+
+  Lemma parse_casts_err cast e : parse_casts X cast = Err e -> doc_err e.
+  Proof.
+    unfold parse_casts, doc_err. intros H.
+    destruct cast as [v|]; [|discriminate].
+    destruct v; try discriminate; try (injection H as <-; auto; fail).
+    bs H l Hl; [|discriminate].
+    eapply (mapM_err doc_err); [|exact H]. intros kv e' _ Hkv. unfold doc_err. cbv beta in Hkv.
+    bs Hkv from_t Hfrom.
+    { repeat match type of Hkv with context [match ?x with _ => _ end] => destruct x end;
+        try discriminate; injection Hkv as <-; auto. }
+    bs Hkv to_t Hto.
+    { repeat match type of Hkv with context [match ?x with _ => _ end] => destruct x end;
+        try discriminate; injection Hkv as <-; auto. }
+    repeat match type of Hkv with context [match ?x with _ => _ end] => destruct x end;
+      try discriminate; injection Hkv as <-; auto.
+  Qed.
+
+  Definition missing_field (spec : pyval) : Prop :=
+    exists d, spec = VDict d /\
+      (dict_look (VStr "path") d = None \/ dict_look (VStr "condition") d = None).
+
+  Lemma rule_from_spec_err_gen (P : exc -> Prop) spec e :
+    P TypeError -> P MalformedRule ->
+    (forall l e, ldepth l < vdepth spec -> from_part_specs T X l = Err e -> P e) ->
+    (forall c e, vdepth c < vdepth spec -> cond1_from_spec T X c = Err e -> P e) ->
+    rule_from_spec T X spec = Err e -> P e \/ (e = KeyError /\ missing_field spec).
+  Proof.
+    intros P_type P_rule Hparts Hcond H. unfold rule_from_spec in H.
+    bs H pv Hpv.
+    { apply get_item_err in H as [->|[-> [d [-> Hd]]]]; [left; exact P_type|].
+      right. split; [reflexivity|]. exists d. auto. }
+    apply get_item_depth in Hpv.
+    bs H parts Hp; [apply py_iter_err in H; subst; left; exact P_type|].
+    apply py_iter_depth in Hp.
+    bs H pt Hpt; [left; eapply Hparts; [|exact H]; lia|].
+    bs H cv Hcv.
+    { apply get_item_err in H as [->|[-> [d [-> Hd]]]]; [left; exact P_type|].
+      right. split; [reflexivity|]. exists d. auto. }
+    apply get_item_depth in Hcv.
+    bs H ct Hct; [left; eapply Hcond; [|exact H]; lia|]. destruct ct as [ct c].
+    bs H doc Hdoc; [left; apply norm_doc_err in H as [->| ->]; assumption|].
+    bs H cs Hcs; [left; apply parse_casts_err in H as [->| ->]; assumption|].
+    destruct cs; discriminate.
+  Qed.
+
+  Lemma rule_from_spec_err_all spec e :
+    rule_from_spec T X spec = Err e -> serr e \/ (e = KeyError /\ missing_field spec).
+  Proof.
+    apply rule_from_spec_err_gen.
+    - left; exact se_type.
+    - left; exact se_rule.
+    - intros l e' _. apply from_part_specs_err_all.
+    - intros c e' _. apply cond1_from_spec_err_all.
+  Qed.
+
+  Lemma rule_from_spec_err_depth spec e :
+    vdepth spec <= spec_fuel ->
+    rule_from_spec T X spec = Err e -> spec_error e \/ (e = KeyError /\ missing_field spec).
+  Proof.
+    intros Hd. apply rule_from_spec_err_gen.
+    - exact se_type.
+    - exact se_rule.
+    - intros l e' Hl. apply from_part_specs_err_depth. lia.
+    - intros c e' Hc. apply cond1_from_spec_err_depth. lia.
+  Qed.
+End SpecFacts.
+
+(* ------------------------------------------------------------------ *)
+(* facts about the generated tables (by computation)                   *)
+
+(* every parameter a DSL constructor stores is one of its own parameters *)
+Lemma T_tables_ok : tables_ok T = true.
+Proof. vm_compute. reflexivity. Qed.
+(* primitives in a path become Key.equal_to / Index.equal_to, values Value.equal_to: they exist *)
+Lemma T_key_eq : has_ctor T "Key" "equal_to" = true. Proof. vm_compute. reflexivity. Qed.
+Lemma T_index_eq : has_ctor T "Index" "equal_to" = true. Proof. vm_compute. reflexivity. Qed.
+Lemma T_value_eq : has_ctor T "Value" "equal_to" = true. Proof. vm_compute. reflexivity. Qed.
+(* every allowed path suffix names a DataPath modifier *)
+Lemma X_suffixes_ok : forallb mod_okb (sx_allowed_suffixes X) = true.
+Proof. vm_compute. reflexivity. Qed.
+
+(* ------------------------------------------------------------------ *)
+(* C19                                                                  *)
+
+(* 1. ConditionLike.from_spec *)
+Theorem C19_cond_no_internal : forall spec e,
+  cond1_from_spec T X spec = Err e -> spec_error e \/ e = RecursionError.
+Proof.
+  intros spec e H.
+  exact (cond1_from_spec_err_all T X T_tables_ok T_key_eq T_index_eq T_value_eq X_suffixes_ok spec e H).
+Qed.
+
+Theorem C19_cond_no_recursion : forall spec e,
+  vdepth spec < spec_fuel -> cond1_from_spec T X spec = Err e -> spec_error e.
+Proof.
+  intros spec e Hd H.
+  exact (cond1_from_spec_err_depth T X T_tables_ok T_key_eq T_index_eq T_value_eq X_suffixes_ok spec e Hd H).
+Qed.
+
+(* 2. DataPath.from_spec *)
+Theorem C19_path_no_internal : forall spec e,
+  path_from_spec T X spec = Err e -> spec_error e \/ e = RecursionError.
+Proof.
+  intros spec e H.
+  exact (path_from_spec_err_all T X T_tables_ok T_key_eq T_index_eq T_value_eq X_suffixes_ok spec e H).
+Qed.
+
+Theorem C19_path_no_recursion : forall spec e,
+  vdepth spec <= spec_fuel -> path_from_spec T X spec = Err e -> spec_error e.
+Proof.
+  intros spec e Hd H.
+  exact (path_from_spec_err_depth T X T_tables_ok T_key_eq T_index_eq T_value_eq X_suffixes_ok spec e Hd H).
+Qed.
+
+(* 3. ContainerValue.from_spec *)
+Theorem C19_part_no_internal : forall d e,
+  part_spec_parse T X d = Err e -> spec_error e \/ e = RecursionError.
+Proof.
+  intros d e H.
+  exact (part_spec_parse_err_all T X T_tables_ok T_key_eq T_index_eq T_value_eq d e H).
+Qed.
+
+Theorem C19_part_no_recursion : forall d e,
+  vdepth (VDict d) < spec_fuel -> part_spec_parse T X d = Err e -> spec_error e.
+Proof.
+  intros d e Hd H.
+  exact (part_spec_parse_err_depth T X T_tables_ok T_key_eq T_index_eq T_value_eq d e Hd H).
+Qed.
+
+(* ... behind dict(spec), as the harness calls it *)
+Theorem C19_part_entry_no_internal : forall spec e,
+  (let* d := dict_of_val spec in part_spec_parse T X d) = Err e -> spec_error e \/ e = RecursionError.
+Proof.
+  intros spec e H.
+  exact (part_entry_err_all T X T_tables_ok T_key_eq T_index_eq T_value_eq spec e H).
+Qed.
+
+Theorem C19_part_entry_no_recursion : forall spec e,
+  S (vdepth spec) < spec_fuel ->
+  (let* d := dict_of_val spec in part_spec_parse T X d) = Err e -> spec_error e.
+Proof.
+  intros spec e Hd H.
+  exact (part_entry_err_depth T X T_tables_ok T_key_eq T_index_eq T_value_eq spec e Hd H).
+Qed.
+
+(* 4. DataPath.from_part_specs *)
+Theorem C19_part_specs_no_internal : forall l e,
+  from_part_specs T X l = Err e -> spec_error e \/ e = RecursionError.
+Proof.
+  intros l e H.
+  exact (from_part_specs_err_all T X T_tables_ok T_key_eq T_index_eq T_value_eq l e H).
+Qed.
+
+Theorem C19_part_specs_no_recursion : forall l e,
+  vdepth (VList l) <= spec_fuel -> from_part_specs T X l = Err e -> spec_error e.
+Proof.
+  intros l e Hd H. rewrite vdepth_list in Hd.
+  exact (from_part_specs_err_depth T X T_tables_ok T_key_eq T_index_eq T_value_eq l e Hd H).
+Qed.
+
+(* 5. Rule.from_spec *)
+Theorem C19_rule_no_internal : forall spec e,
+  rule_from_spec T X spec = Err e -> rule_error e \/ e = RecursionError.
+Proof.
+  intros spec e H.
+  destruct (rule_from_spec_err_all T X T_tables_ok T_key_eq T_index_eq T_value_eq X_suffixes_ok spec e H)
+    as [[Hs|Hr]|[Hk _]].
+  - left. left. exact Hs.
+  - right. exact Hr.
+  - left. right. exact Hk.
+Qed.
+
+Theorem C19_rule_no_recursion : forall spec e,
+  vdepth spec <= spec_fuel -> rule_from_spec T X spec = Err e -> rule_error e.
+Proof.
+  intros spec e Hd H.
+  destruct (rule_from_spec_err_depth T X T_tables_ok T_key_eq T_index_eq T_value_eq X_suffixes_ok spec e Hd H)
+    as [Hs|[Hk _]].
+  - left. exact Hs.
+  - right. exact Hk.
+Qed.
+
+(* a KeyError names a missing rule field: the spec is a mapping without "path" or without "condition" *)
+Theorem C19_rule_keyerror : forall spec,
+  rule_from_spec T X spec = Err KeyError ->
+  exists d, spec = VDict d /\
+    (dict_look (VStr "path") d = None \/ dict_look (VStr "condition") d = None).
+Proof.
+  intros spec H.
+  destruct (rule_from_spec_err_all T X T_tables_ok T_key_eq T_index_eq T_value_eq X_suffixes_ok spec _ H)
+    as [[Hs|Hr]|[_ Hm]].
+  - unfold spec_error in Hs. repeat destruct Hs as [Hs|Hs]; discriminate.
+  - discriminate.
+  - exact Hm.
+Qed.
+
+(* the fuel artefact is real in the model: forty nested "and"s around a leaf exhaust it *)
+Fixpoint nest_and (n : nat) (s : pyval) : pyval :=
+  match n with O => s | S k => VDict [(VStr "and", VList [nest_and k s])] end.
+Example C19_fuel_exhausted :
+  cond1_from_spec T X (nest_and 40 (VDict [(VStr "value.equal_to", VInt 1)])) = Err RecursionError
+  /\ (exists r, cond1_from_spec T X (nest_and 39 (VDict [(VStr "value.equal_to", VInt 1)])) = Ok r).
+Proof. split; [vm_compute; reflexivity | vm_compute; eexists; reflexivity]. Qed.
+
+Example C19_keyerror_reachable : exists r, rule_from_spec T X (VDict []) = Err KeyError /\ r = tt.
+Proof. exists tt. split; [vm_compute; reflexivity|reflexivity]. Qed.
+
+Print Assumptions C19_cond_no_internal.
+Print Assumptions C19_cond_no_recursion.
+Print Assumptions C19_path_no_internal.
+Print Assumptions C19_path_no_recursion.
+Print Assumptions C19_part_no_internal.
+Print Assumptions C19_part_no_recursion.
+Print Assumptions C19_part_entry_no_internal.
+Print Assumptions C19_part_entry_no_recursion.
+Print Assumptions C19_part_specs_no_internal.
+Print Assumptions C19_part_specs_no_recursion.
+Print Assumptions C19_rule_no_internal.
+Print Assumptions C19_rule_no_recursion.
+Print Assumptions C19_rule_keyerror.
